@@ -97,8 +97,9 @@ def dist2(x, y):
     return math.sqrt(sum((a - b) ** 2 for a, b in zip(x, y)))
 
 
-def gen_unit(rng, kind, n, k):
-    """one unit as a nested list of rows"""
+def gen_unit(rng, kind, n, k, wide=False):
+    """one unit as a nested list of rows; `wide`: homogeneous representatives (and tangent vectors)
+    of very different magnitudes"""
     if kind == "PPoly":
         rows = []
         for _ in range(k):
@@ -106,9 +107,14 @@ def gen_unit(rng, kind, n, k):
                 v = [rng.uniform(-1, 1) for _ in range(n + 1)]
                 if sum(t * t for t in v) >= 0.09:
                     break
+            if wide:
+                f = 10.0 ** rng.uniform(-6, 6)
+                v = [t * f for t in v]
             rows.append(v)
         return rows
     s = rng.uniform(0.5, 2.0)
+    if wide:
+        s = 10.0 ** rng.uniform(-6, 6)
     if kind == "HPoly":
         pts = []
         while len(pts) < k:
@@ -132,13 +138,16 @@ def gen_unit(rng, kind, n, k):
         t = [a - mp / pp * b for a, b in zip(v, p)]
         tn = -t[0] * t[0] + sum(a * a for a in t[1:])
         if tn >= 0.1:
+            if wide:
+                f = 10.0 ** rng.uniform(-6, 6)
+                v = [a * f for a in v]
             return [p, v]
 
 
-def gen_data(rng, kind, n, k, shape):
+def gen_data(rng, kind, n, k, shape, wide=False):
     def rec(sh):
         if not sh:
-            return gen_unit(rng, kind, n, k)
+            return gen_unit(rng, kind, n, k, wide)
         return [rec(sh[1:]) for _ in range(sh[0])]
     return rec(list(shape))
 
@@ -226,6 +235,8 @@ class Engine:
         np.seterr(all="ignore")
         import warnings
         warnings.simplefilter("ignore")
+        from .core import library_guard
+        self.guard = library_guard()
         self.classes = {"PPoly": projective.Polygon, "HPoly": hyperbolic.Polygon,
                         "HSeg": hyperbolic.Segment, "HTan": hyperbolic.TangentVector}
 
@@ -239,6 +250,7 @@ class Engine:
             "callers": rng.randint(2, 4),
             "kinds": sorted(rng.sample(KINDS, rng.randint(1, 4))),
             "polyk": rng.choice([3, 4, 5]),
+            "wide": rng.random() < 0.25,
         }
         w = {"mk": 14, "copy": 8, "stack": 6, "apply": 14, "reshape": 6, "flatten": 6, "index": 8,
              "setitem": 10, "combine": 7, "astype": 4, "setter": 5, "query": 22, "reject": 1, "drop": 3}
@@ -255,6 +267,7 @@ class Engine:
     def new_world(self, cfg, prop):
         if self.hyperbolic.CHECK_LIGHT_CONE is not False:
             self.hyperbolic.CHECK_LIGHT_CONE = False
+        self.guard.restore()
         return World(cfg, prop)
 
     def close(self, world):
@@ -325,7 +338,7 @@ class Engine:
         n = cfg["n"]
         k = cfg["polyk"] if kind in ("PPoly", "HPoly") else 2
         shape = self._rand_shape(rng)
-        data = gen_data(rng, kind, n, k, shape)
+        data = gen_data(rng, kind, n, k, shape, cfg.get("wide"))
         via = "array"
         if kind != "PPoly" and rng.random() < 0.3:
             via = "klein"          # hyperbolic.Point(klein, model='klein') then cls(points)
@@ -410,7 +423,7 @@ class Engine:
                  and not o.cplx]
         if mates and rng.random() < 0.5:
             return {"op": "setitem", "h": h.id, "key": key, "src": rng.choice(mates).id, "data": None}
-        data = gen_data(rng, h.kind, h.n, h.k, tshape)
+        data = gen_data(rng, h.kind, h.n, h.k, tshape, world.cfg.get("wide"))
         return {"op": "setitem", "h": h.id, "key": key, "src": None, "data": data}
 
     def _gen_combine(self, rng, world):
@@ -435,7 +448,7 @@ class Engine:
         if h is None:
             return None
         shape = list(h.shape) if rng.random() < 0.6 else self._rand_shape(rng)
-        data = gen_data(rng, h.kind, h.n, h.k, shape)
+        data = gen_data(rng, h.kind, h.n, h.k, shape, world.cfg.get("wide"))
         which = "projective"
         if h.kind in ("HPoly", "HSeg") and rng.random() < 0.4:
             which = "klein"
@@ -899,9 +912,54 @@ class Engine:
                 return ("A.aux", "stored derived data differs from what is recomputed from the primary data "
                         "(flat index %d): stored %s recomputed %s" % (
                             i, np.round(A.reshape(-1, d)[:4], 6).tolist(), np.round(F.reshape(-1, d)[:4], 6).tolist()))
+            # the same derived data, derived independently from the model's primary data
+            i = self._aux_vs_model(h, A)
+            if i >= 0:
+                return ("A.model", "stored derived data is not the %s of the represented object (flat index %d): "
+                        "stored %s" % ({"PPoly": "edges", "HPoly": "edges", "HSeg": "ideal endpoints",
+                                        "HTan": "projected vector"}[h.kind], i,
+                                       np.round(A.reshape(-1, d)[max(0, i - 1):i + 3], 9).tolist()))
         except Exception as e:
             return ("A.raised", "reading the object raised %r" % (e,))
         return None
+
+    @staticmethod
+    def _mink(u, v):
+        return -u[..., 0] * v[..., 0] + np.sum(u[..., 1:] * v[..., 1:], axis=-1)
+
+    def _aux_vs_model(self, h, A):
+        d = h.n + 1
+        D = h.data
+        if h.kind in ("PPoly", "HPoly"):
+            want = np.stack([D, np.roll(D, -1, axis=-2)], axis=-2)
+            if want.shape != A.shape:
+                return 0
+            return rows_proj_equal(A.reshape(-1, d), want.reshape(-1, d))
+        if h.kind == "HTan":
+            p, v = D[..., 0, :], D[..., 1, :]
+            t = v - (self._mink(v, p) / self._mink(p, p))[..., None] * p
+            i = rows_proj_equal(A[..., 0, :].reshape(-1, d), p.reshape(-1, d))
+            if i < 0:
+                i = rows_proj_equal(A[..., 1, :].reshape(-1, d), t.reshape(-1, d), positive=True)
+            return i
+        if h.cplx:
+            return -1
+        p1, p2 = D[..., 0, :].real, D[..., 1, :].real
+        u = p1 / np.sqrt(np.abs(self._mink(p1, p1)))[..., None]
+        w = p2 / np.sqrt(np.abs(self._mink(p2, p2)))[..., None]
+        c = -self._mink(u, w)
+        w = np.where((c < 0)[..., None], -w, w)
+        c = np.abs(c)
+        r = np.sqrt(np.maximum(c * c - 1.0, 0.0))
+        n1 = (-c + r)[..., None] * u + w
+        n2 = (-c - r)[..., None] * u + w
+        A2 = A.reshape(-1, 2, d)
+        N1, N2 = n1.reshape(-1, d), n2.reshape(-1, d)
+        for k in range(A2.shape[0]):
+            a = np.stack([N1[k], N2[k]])
+            if rows_proj_equal(A2[k], a) >= 0 and rows_proj_equal(A2[k], a[::-1]) >= 0:
+                return k
+        return -1
 
     # ------------------------------------------------------------------ shrinking
     def simplify_op(self, op):
